@@ -476,6 +476,74 @@ def shrink_candidates(c):
         yield {"events": ev[:i] + ev[i + 1:], "ce": c.get("ce"), "multi": c.get("multi")}
 
 
+# ---------------------------------------------------------------- Route Target Constraint applies to EVPN routes too (oracle only)
+EV_PFX = ["10.1.0.0/24", "10.2.0.0/24", "10.3.0.0/24", "10.4.0.0/24"]
+
+
+def gen_evpn(rng):
+    ev, mem, routes = [], set(), {}
+    for _ in range(rng.choice([4, 8, 12])):
+        r = rng.random()
+        if r < 0.3:
+            rt = rng.choice(RTS)
+            if rt in mem and rng.random() < 0.6:
+                ev.append(("rtm", "w", rt))
+                mem.discard(rt)
+            else:
+                ev.append(("rtm", "a", rt))
+                mem.add(rt)
+        elif r < 0.8:
+            pf = rng.choice(EV_PFX)
+            rts = sorted(rng.sample(RTS, rng.choice([1, 1, 2])))
+            ev.append(("ann", pf, rts))
+        elif r < 0.9:
+            ev.append(("wd", rng.choice(EV_PFX)))
+        else:
+            ev.append(("obs",))
+    ev.append(("obs",))
+    return {"events": ev}
+
+
+def evpn_line(c):
+    steps = ["(up a vpn evpn)", "(up b vpn rtc evpn)", "(eorf b rtc)"]
+    for e in c["events"]:
+        if e[0] == "rtm":
+            steps.append("(rtm b (%s 65002 %s))" % (e[1], e[2]))
+        elif e[0] == "ann":
+            steps.append("(evpn a (a 65001:1 %s (%s)))" % (e[1], " ".join(e[2])))
+        elif e[0] == "wd":
+            steps.append("(evpn a (w 65001:1 %s))" % e[1])
+        else:
+            steps.append("(obs)")
+    return "(sim (global 65000 1.1.1.1 sync) (peers (a 10.0.0.1 65001 vpn evpn) (b 10.0.0.2 65002 vpn rtc evpn)) (steps %s))" % " ".join(steps)
+
+
+def evpn_oracle(c, out):
+    from checks import simlib
+    r = simlib.split_output(out)
+    if r is None:
+        return ("harness-error", "the scenario did not complete: " + out[:300])
+    obs, i, mem, routes = r[0], 0, set(), {}
+    for e in c["events"]:
+        if e[0] == "rtm":
+            (mem.add if e[1] == "a" else mem.discard)(e[2])
+        elif e[0] == "ann":
+            routes[e[1]] = set(e[2])
+        elif e[0] == "wd":
+            routes.pop(e[1], None)
+        else:
+            if i >= len(obs):
+                return ("harness-error", "missing observation")
+            view = obs[i]["peers"]["b"].get("view", {})
+            i += 1
+            got = {pf for pf in EV_PFX if any(("prefix:" + pf) in k or pf in k for k in view if "type:" in k or "Prefix" in k or "[" in k)}
+            want = {pf for pf, rts in routes.items() if rts & mem}
+            if got != want:
+                return ("rtc-evpn-peer-holds-unwanted-route" if got - want else "rtc-evpn-peer-lacks-wanted-route",
+                        "the peer's memberships are %s; it holds the EVPN routes %s, those carrying one of its targets are %s" % (sorted(mem), sorted(got), sorted(want)))
+    return None
+
+
 def run(ctx):
     # the statement structure of updateVPNIdx is regenerated: theorem C17_generated_index_update_is_the_model_step is about it
     okt, changed, logt = core.generate("c17idx", "C17Idx")
@@ -503,8 +571,14 @@ def run(ctx):
                              model_applies=lambda c: c["plain"], nontrivial=lambda c: len(c["events"]) >= 4,
                              correspondence_name="TableManager.Update / updateVPNIdx / GetPathsByRT vs Vrf.Index.istep / paths_by_rt",
                              impl_spec=("c17idx", False, (), None), model_name="c17")
+    # Route Target Constraint over another family that carries route targets: EVPN (outside the model; oracle only)
+    ecases = [gen_evpn(ctx.rng) for _ in range(ctx.scale(200, 2000))]
+    cov4 = core.differential(ctx, "c17", proof, ecases, evpn_line, evpn_oracle, model_applies=lambda c: False, nontrivial=lambda c: True,
+                             model_line_of=lambda c: model_line({"events": [("obs",)], "ce": False}),
+                             correspondence_name="filterpath / processRTCMembership over EVPN routes: a peer with Route Target Constraint holds exactly the EVPN routes carrying a target it is a member of",
+                             impl_spec=IMPL_SPEC, model_name="c17")
     for k in ("evaluations", "distinct_nontrivial", "traces_validated_against_impl", "disagreements_checked"):
-        cov[k] = cov.get(k, 0) + cov3.get(k, 0)
+        cov[k] = cov.get(k, 0) + cov3.get(k, 0) + cov4.get(k, 0)
     cov.setdefault("further_families", []).append({"name": "route-target index (table level)", "evaluations": cov3.get("evaluations"), "sample": (cov3.get("samples") or [""])[0][:200]})
     pc = core.proof_coverage(proof)
     pc.update(cov)
